@@ -6,7 +6,7 @@ from checks import exec_common, exec_findings
 
 
 def run(ctx):
-    exec_common.run_property(ctx, "C01", ['mixed', 'crash', 'timeout', 'kill', 'init', 'respawn_crash', 'callback', 'memleak'], 400, 4000, classify=exec_findings.classify)
+    exec_common.run_property(ctx, "C01", ['mixed', 'crash', 'timeout', 'kill', 'init', 'respawn_crash', 'callback', 'memleak', 'resize_grow_crash'], 400, 4000, classify=exec_findings.classify)
 
 
 if __name__ == "__main__":
